@@ -33,6 +33,25 @@ def canon_val(v):
     return {'other': type(v).__name__}
 
 
+class _VirtualDatetime(object):
+    ''' stand-in for the `datetime` module inside tcpcl.session: virtual loop time plus a strictly
+    increasing microsecond counter (so an acknowledgement is always later than its segment) '''
+    import datetime as _dt
+    timezone = _dt.timezone
+    timedelta = _dt.timedelta
+    _n = 0
+
+    class datetime(object):
+        @staticmethod
+        def now(tz=None):
+            import datetime as _dt
+            _VirtualDatetime._n += 1
+            return _dt.datetime(2020, 1, 1, tzinfo=tz) + _dt.timedelta(milliseconds=LOOP.now, microseconds=_VirtualDatetime._n)
+
+
+session.datetime = _VirtualDatetime
+
+
 class Endpoint(object):
     def __init__(self, name, passive, cfg):
         self.name = name
@@ -43,12 +62,26 @@ class Endpoint(object):
             node_id=cfg.get('node_id', 'dtn://%s/' % name), keepalive_time=cfg.get('keepalive', 0),
             idle_time=cfg.get('idle', 0), segment_size_mru=cfg.get('seg_mru', 10485760),
             segment_size_tx_initial=cfg.get('seg_init', 104857),
-            enable_test=set(['private_extensions']) if cfg.get('priv_ext') else set()), sock=self.sock)
+            enable_test=set(['private_extensions']) if cfg.get('priv_ext') else set(),
+            modulate_target_ack_time=cfg.get('modulate')), sock=self.sock)
         if passive:
             kw['fromaddr'] = ('192.0.2.1', 40000)
         else:
             kw['toaddr'] = ('192.0.2.1', 4556)
         self.h = session.ContactHandler(hdl_kwargs=kw, bus_kwargs=dict(conn=None, object_path='/verif/' + name))
+        # segment-size controller: the float arithmetic is not modelled; its clamped output is observed
+        # and handed to the model as a `modulate` event right after the event in which it ran
+        self._modulated = False
+        _orig_mod = self.h._modulate_tx_seg_size
+
+        def _mod(delta_b, delta_t, _orig=_orig_mod):
+            if not self._modulated:
+                self._seg_pre = self.h._send_segment_size
+            try:
+                return _orig(delta_b, delta_t)
+            finally:
+                self._modulated = True
+        self.h._modulate_tx_seg_size = _mod
         self.events = []        # JSON events (model input)
         self.obs = []           # canonical observables per event
         self._sig_mark = 0
@@ -116,7 +149,14 @@ class Endpoint(object):
 
     def fire(self, ev, src):
         ran, exc = LOOP.fire(src)
-        self.record(ev, self._collect(esc=type(exc).__name__ if exc is not None else None))
+        obs = self._collect(esc=type(exc).__name__ if exc is not None else None)
+        if self._modulated and isinstance(obs.get('snap'), dict):
+            # the controller's effect is attributed to the `modulate` event which follows
+            obs['snap']['seg'] = self._seg_pre or 0
+        self.record(ev, obs)
+        if self._modulated:
+            self._modulated = False
+            self.record({'e': 'modulate', 'raw': int(self.h._send_segment_size)}, self._collect())
 
 
 class Sim(object):
